@@ -391,6 +391,15 @@ func runC04(w *W) {
 					today = append(today, calendar.NewSolar(y, m, d, t.h, t.m, t.s))
 					next = append(next, calendar.NewSolar(ny, nm, nd, t.h, t.m, t.s))
 				}
+				if j%2 == 1 {
+					// ask first: on every second day the objects have answered other questions (Julian Day, weekday, printed
+					// form) before they are compared and subtracted
+					for _, o := range append(append([]*calendar.Solar{}, today...), next...) {
+						o.GetJulianDay()
+						o.GetWeek()
+						_ = o.ToYmdHms()
+					}
+				}
 				for i, a := range today {
 					ti := c04CmpTimes[i]
 					ia := ti.h*3600 + ti.m*60 + ti.s
